@@ -429,6 +429,14 @@ func c40SessionFile(id string) string {
 	return p
 }
 
+func c40ArchiveFile(id string) string {
+	p, err := filesystem.Mutagen(false, filesystem.MutagenSynchronizationArchivesDirectoryName, id)
+	if err != nil {
+		vlib.Fatal("archive path: %v", err)
+	}
+	return p
+}
+
 func c40History(c *vlib.Ctx, pi, hi int) map[string]any {
 	pop := c40Pops[pi-1]
 	m, base, sessions := c40Populate(c, pop)
@@ -437,6 +445,7 @@ func c40History(c *vlib.Ctx, pi, hi int) map[string]any {
 	ctx, cancel := context.WithTimeout(context.Background(), 120*time.Second)
 	defer cancel()
 	ops := []any{}
+	sabotaged := make([]bool, len(sessions))
 	for _, op := range c40Histories[hi-1] {
 		sel := &selection.Selection{}
 		switch op.sel {
@@ -451,7 +460,9 @@ func c40History(c *vlib.Ctx, pi, hi int) map[string]any {
 		}
 		// (the table's sabotaged session is among the selected ones for the first population only)
 		if op.sabotage > 0 && pi == 1 {
-			os.Remove(c40SessionFile(sessions[op.sabotage-1].id))
+			if os.Remove(c40SessionFile(sessions[op.sabotage-1].id)) == nil {
+				sabotaged[op.sabotage-1] = true
+			}
 		}
 		var err error
 		if op.kind == "term" {
@@ -462,12 +473,13 @@ func c40History(c *vlib.Ctx, pi, hi int) map[string]any {
 		ops = append(ops, map[string]any{"op": op.kind, "sel": op.sel, "arg": op.arg, "sabotage": op.sabotage, "err": ascii(errStr(err))})
 	}
 	ss := []any{}
-	for _, s := range sessions {
+	for i, s := range sessions {
 		e := s.enc()
 		_, statErr := os.Stat(c40SessionFile(s.id))
+		_, archErr := os.Stat(c40ArchiveFile(s.id))
 		e["file"] = statErr == nil
-		e["terminated"] = statErr != nil
-		e["alive"] = statErr == nil
+		e["archive"] = archErr == nil
+		e["sabotaged"] = sabotaged[i] // the driver itself removed the session file
 		ss = append(ss, e)
 	}
 	var queries []any
